@@ -40,8 +40,10 @@ type c14Scenario struct {
 	Name  string
 	EPN   int
 	Cache int
-	Build func(w *engine.World) map[int][2]string // prepares the bucket, returns the committed rows (model)
-	Stmts []c14Stmt
+	// DeleteDesc: vacuum deletes its objects in descending instead of ascending name order (hook H9)
+	DeleteDesc bool
+	Build      func(w *engine.World) map[int][2]string // prepares the bucket, returns the committed rows (model)
+	Stmts      []c14Stmt
 }
 
 func rowsOf(m map[int][2]string, filter func(k int) bool, desc bool) engine.Rows {
@@ -191,7 +193,7 @@ func c14Scenarios() []c14Scenario {
 		}
 		return nil, err
 	}}
-	return []c14Scenario{
+	all := []c14Scenario{
 		{Name: "multi-level, two heads: open, INSERT, UPDATE, DELETE, SELECT range, SELECT desc", EPN: 2, Build: build(2, true), Stmts: []c14Stmt{open, ins(50), upd, del, selRange, selDesc, selAllS}},
 		{Name: "single node: open, transaction, SELECT", EPN: 4096, Build: build(4096, false), Stmts: []c14Stmt{open, tx, selAllS, ins(70), selAllS}},
 		{Name: "multi-level with node cache: open, INSERT, SELECT, UPDATE", EPN: 2, Cache: 100, Build: build(2, false), Stmts: []c14Stmt{open, ins(50), selAllS, upd, selRange}},
@@ -202,6 +204,20 @@ func c14Scenarios() []c14Scenario {
 		{Name: "node cache: INSERT, DELETE, vacuum everything, replay of the INSERT at its original write_time", EPN: 2, Cache: 100, Build: buildPlain(2), Stmts: []c14Stmt{open, insAt(50, 200, false), delAt(50, 210), vacuumAll, insAt(50, 200, true)}},
 		{Name: "node cache, single node: INSERT, DELETE, vacuum everything, replay of the INSERT", EPN: 4096, Cache: 100, Build: buildPlain(4096), Stmts: []c14Stmt{open, insAt(50, 200, false), delAt(50, 210), vacuumAll, insAt(50, 200, true)}},
 	}
+	// vacuum deletes objects in map order: every scenario with a vacuum also in the opposite (descending) order
+	n := len(all)
+	for i := 0; i < n; i++ {
+		for _, st := range all[i].Stmts {
+			if strings.Contains(st.Name, "vacuum") {
+				d := all[i]
+				d.Name += " (vacuum deletes in descending order)"
+				d.DeleteDesc = true
+				all = append(all, d)
+				break
+			}
+		}
+	}
+	return all
 }
 
 type c14Case struct {
@@ -277,6 +293,7 @@ func c14Worker(raw json.RawMessage) *engine.Result {
 	sc := c14Scenarios()[c.Scen]
 	w := engine.NewWorld()
 	defer w.Close()
+	w.DeleteDescending = sc.DeleteDesc
 	w.SetClock(engine.T(50))
 	committed := sc.Build(w)
 	w.SetClock(engine.T(1000))
